@@ -36,6 +36,8 @@ def family(op):
     nm = op.name
     if "expand-odd" in op.tags:
         return "expand_dims(c=odd)"
+    if "solve-odd-a" in op.tags:
+        return "solve[fermionic,odd-a]"
     if "solve" in op.tags:
         return "solve"
     for ch in "([":
